@@ -44,9 +44,37 @@ Proof. exact translate_total. Qed.
 (* any text at all, any offset up to 2^62: no panic (usize bracket depth, i64 arithmetic), no
    error, the fuel of the model suffices *)
 Theorem C15_no_panic :
-  forall is_alnum, alnum_oracle is_alnum ->
-  forall s off, off_small off -> exists r, replace_cell_names is_alnum s off = Ok r.
+  forall is_alnum s off, off_small off -> exists r, replace_cell_names is_alnum s off = Ok r.
 Proof. exact rcn_total. Qed.
+
+(* totality after the C06 hardening (for C06): no hypothesis on the input.  The A1 scanner and
+   get_dimension as of HEAD (u64 saturating accumulators, u32::try_from, saturating_sub): *)
+Theorem C15_no_panic_get_row_column :
+  forall range, sf_get_row_column range <> Panic /\ sf_get_row_column range <> OutOfFuel.
+Proof. exact no_panic_get_row_column. Qed.
+Theorem C15_no_panic_get_dimension :
+  forall d, sf_get_dimension d <> Panic /\ sf_get_dimension d <> OutOfFuel.
+Proof. exact no_panic_get_dimension. Qed.
+(* replace_cell_names, in the <> form; and the shared-formula part of next_formula /
+   worksheet_formula on any sequence of <c> elements — any ref attribute (inverted, huge,
+   garbage), any master text, any shared index, any order; positions are u32 as in the Rust
+   type: an error at worst *)
+Theorem C15_no_panic_replace_cell_names :
+  forall is_alnum s off, off_small off ->
+    replace_cell_names is_alnum s off <> Panic /\ replace_cell_names is_alnum s off <> OutOfFuel.
+Proof. exact no_panic_replace_cell_names. Qed.
+Theorem C15_no_panic_next_formula :
+  forall is_alnum cells,
+    Forall (fun c : fcell => u32_pos (fst c)) cells ->
+    (run_cells is_alnum [] cells <> Panic /\ run_cells is_alnum [] cells <> OutOfFuel) /\
+    (sheet_formulas is_alnum cells <> Panic /\ sheet_formulas is_alnum cells <> OutOfFuel).
+Proof. exact no_panic_next_formula. Qed.
+Example C15_no_panic_next_formula_nonvacuous :
+  Forall (fun c : fcell => u32_pos (fst c))
+    [((1, 1), FMaster 0 [66;51;58;66;50] [65;49]); ((2, 1), FMember 0 [75])] /\
+  run_cells ascii_alnum [] [((1, 1), FMaster 0 [66;51;58;66;50] [65;49]); ((2, 1), FMember 0 [75])]
+  = Ok [((1, 1), [65;49]); ((2, 1), [75])].
+Proof. exact no_panic_next_formula_nonvacuous. Qed.
 
 Example C15_translate_correct_nonvacuous :
   alnum_oracle ascii_alnum /\
@@ -121,6 +149,10 @@ Print Assumptions C15_translate_correct.
 Print Assumptions C15_translate_correct_at.
 Print Assumptions C15_translate_total.
 Print Assumptions C15_no_panic.
+Print Assumptions C15_no_panic_get_row_column.
+Print Assumptions C15_no_panic_get_dimension.
+Print Assumptions C15_no_panic_replace_cell_names.
+Print Assumptions C15_no_panic_next_formula.
 Print Assumptions C15_group_covers_range.
 Print Assumptions C15_refuted_whole_range.
 Print Assumptions C15_refuted_sheet3d.
